@@ -7,10 +7,10 @@ from .c03 import sigma, S6
 INFO = {
     "rule": "every <--> law of the docstrings/docs plus the documented operator spellings, instantiated for every parameter combination "
             "(widths 1..8 quick / 1..16 thorough x signed x swapped, moduli, counts 0..3, label sets), each side parsed on every byte string "
-            "of the relevant length +-1 over S6 (all 65536 strings for widths <= 2) and built from the integer/value alphabet including "
+            "of the relevant length +-1 over S6 (lengths <= 4 quick / <= 6 thorough; all 65536 strings for widths <= 2; patterns beyond) and built from the integer/value alphabet including "
             "out-of-range values and non-integers. Oracle: both sides accept with equal value / identical bytes or both reject; sizeof "
             "equal or both SizeofError. non-trivial = both sides accepted and values/bytes were compared; distinct = (law instance, input)",
-    "bounds": {"quick": {"max_width": 8}, "thorough": {"max_width": 16}},
+    "bounds": {"quick": {"max_width": 8, "s6_upto": 4}, "thorough": {"max_width": 16, "s6_upto": 6}},
     "trusted_base": ["none beyond the two sides of each law (pure differential)"],
     "assumptions": ["display subclasses (HexDisplayedInteger etc.) are compared by value; the Restreamed docstring's spelling of Bitwise/"
                     "Bytewise lists decoder and encoder in the opposite order to the code of Bitwise() - a documentation slip, not compared"],
@@ -30,6 +30,9 @@ def out(f):
         return ("rej", "foreign:" + type(e).__name__)
 
 
+_S6_UPTO = [4]      # all strings over S6 up to this length (thorough: 6); longer ones by pattern
+
+
 def strings_len(n, exhaustive_upto=2):
     res = []
     for m in (n - 1, n, n + 1):
@@ -38,7 +41,7 @@ def strings_len(n, exhaustive_upto=2):
         if m <= exhaustive_upto:
             res += [v.to_bytes(m, "big") for v in range(256 ** m)] if m else [b""]
         else:
-            if m <= 4:
+            if m <= _S6_UPTO[0]:
                 res += [bytes(t) for t in itertools.product(S6, repeat=m)]
             else:
                 pats = [bytes(m), b"\xff" * m, b"\x80" + bytes(m - 1), bytes(m - 1) + b"\x01", b"\x7f" + b"\xff" * (m - 1), bytes((i * 37 + 11) % 256 for i in range(m)),
@@ -64,6 +67,7 @@ def int_values(n, signed):
 def laws(tier):
     """-> list of (family, name, mkA, mkB, inputs, values, kw)"""
     import construct as C
+    _S6_UPTO[0] = INFO["bounds"][tier]["s6_upto"]
     W = INFO["bounds"][tier]["max_width"]
     L = []
     widths = list(range(1, W + 1))
